@@ -1,6 +1,171 @@
-/- Line-protocol driver for engine `ddl` — not built yet (stub). -/
+/-
+  Line-protocol driver for engine `ddl` (C15).
+
+  Case:  ddl | <op> ; <op> ; …
+  op:    s<i> begin | commit | rollback | drop       session control (as engine `hist`)
+         s<i> <stmt>   |   db <stmt>                  statement in the session's transaction / autocommit
+         reopen                                       close the database and open it again (open sessions are dropped)
+  stmt:  ct <name>(<col>:<type>[!][*][=default],…[/a+b][/^a+b])   CREATE TABLE (`!` NOT NULL, `*` UNIQUE(col), `/a+b` UNIQUE,
+                                                                   `/^a+b` PRIMARY KEY; `=d` DEFAULT d, only read by `ac`)
+         ci <t> a+b              CREATE UNIQUE INDEX ON t (a, b)
+         ak <t> a+b | ak <t> ^a  ALTER TABLE t ADD CONSTRAINT UNIQUE / PRIMARY KEY
+         ac <t> <col>:<type>[=default]    ALTER TABLE t ADD COLUMN
+         dc <t> <col>            ALTER TABLE t DROP COLUMN
+         sn <t> <col> | dn <t> <col>      ALTER COLUMN SET / DROP NOT NULL
+         dt <t>                  DROP TABLE
+         sel / ins / upd / del   as engine `hist`
+  Output: one token per op (`ddl` for a successful DDL statement, otherwise as `hist`), then ` | ` and, for every
+          table name mentioned in the case (order of first mention), `<name>=[rows]` or `<name>=notfound`.
+  Flags:  the `Defects` of `Db`; pseudo-flags `abs` (abstract machine) and `nosort`.
+-/
+import AxVerif.Model.Ddl
+import AxVerif.Driver.Hist
+namespace AxVerif.Ddl.Drv
+open AxVerif AxVerif.Db AxVerif.Db.Drv AxVerif.Ddl
+
+/-- `name:type[!][*][=default]` -/
+def parseColD (s : String) : Option (Col × Val) :=
+  match s.splitOn "=" with
+  | [c] => (parseCol c).map (fun x => (x, Val.null))
+  | [c, d] => match parseCol c, parseVal d with
+    | some x, some v => some (x, v)
+    | _, _ => none
+  | _ => none
+
+def parseGroup (g : String) : Option (Bool × List String) :=
+  let (pk, names) := match g.toList with
+    | '^' :: rest => (true, (String.ofList rest).splitOn "+")
+    | _ => (false, g.splitOn "+")
+  if names.isEmpty || !names.all ident then none else some (pk, names)
+
+def idxOf (cols : List Col) (n : String) : Option Nat := (colIndexAux n cols 0).map (·.1)
+
+/-- key groups of CREATE TABLE applied to the column list: PRIMARY KEY sets NOT NULL -/
+def applyGroups (cols : List Col) (uniques : List (List Nat)) : List (Bool × List String) → Option (List Col × List (List Nat))
+  | [] => some (cols, uniques)
+  | (pk, names) :: gs =>
+    match allSomeNat (names.map (idxOf cols)) with
+    | none => none
+    | some idxs => applyGroups (if pk then setNotNullAt cols idxs true else cols) (uniques ++ [idxs]) gs
+
+def parseCreate (spec : String) : Option DStmt :=
+  match spec.splitOn "(" with
+  | [name, rest] =>
+    match rest.toList.reverse with
+    | ')' :: body =>
+      if !ident name then none
+      else match (String.ofList body.reverse).splitOn "/" with
+        | [] => none
+        | colsS :: groups =>
+          match allSome (colsS.splitOn "," |>.map parseColD), allSome (groups.map parseGroup) with
+          | some cds, some gs =>
+            if cds.isEmpty then none
+            else (applyGroups (cds.map (·.1)) [] gs).map (fun (cols, uniques) => DStmt.createTable name cols uniques)
+          | _, _ => none
+    | _ => none
+  | _ => none
+
+def parseDStmt : List String → Option DStmt
+  | ["ct", spec] => parseCreate spec
+  | ["ci", t, g] =>
+    if !ident t then none
+    else match parseGroup g with
+      | some (false, names) => some (.addKey t false names)
+      | _ => none
+  | ["ak", t, g] =>
+    if !ident t then none else (parseGroup g).map (fun (pk, names) => .addKey t pk names)
+  | ["ac", t, c] => if !ident t then none else (parseColD c).map (fun (col, d) => .addColumn t col d)
+  | ["dc", t, c] => if ident t && ident c then some (.dropColumn t c) else none
+  | ["sn", t, c] => if ident t && ident c then some (.setNotNull t c) else none
+  | ["dn", t, c] => if ident t && ident c then some (.dropNotNull t c) else none
+  | ["dt", t] => if ident t then some (.dropTable t) else none
+  | ws => (parseStmt ws).map DStmt.dml
+
+def parseDOp (ws : List String) : Option DOp :=
+  match ws with
+  | ["reopen"] => some (.reopen [])
+  | "db" :: rest => (parseDStmt rest).map DOp.auto
+  | [s, "begin"] => if sessName s then some (.begin s) else none
+  | [s, "commit"] => if sessName s then some (.commit s) else none
+  | [s, "rollback"] => if sessName s then some (.rollback s) else none
+  | [s, "drop"] => if sessName s then some (.drop s) else none
+  | s :: rest => if sessName s then (parseDStmt rest).map (DOp.exec s) else none
+  | [] => none
+
+def parseCase (line : String) : Option (List DOp) :=
+  let line := line.trimAscii.toString
+  if !line.startsWith "ddl |" then none
+  else
+    let body := (line.drop 5).toString.trimAscii.toString
+    if body.isEmpty then some []
+    else allSome ((body.splitOn " ; ").map (fun o => parseDOp (words o)))
+
+def stmtTable : DStmt → String
+  | .dml st => Stmt.table st
+  | .createTable n _ _ => n
+  | .addKey t _ _ => t
+  | .addColumn t _ _ => t
+  | .dropColumn t _ => t
+  | .setNotNull t _ => t
+  | .dropNotNull t _ => t
+  | .dropTable t => t
+
+def tablesOf : List DOp → List String → List String
+  | [], acc => acc.reverse
+  | op :: ops, acc =>
+    match op with
+    | .exec _ st | .auto st =>
+      let t := stmtTable st
+      tablesOf ops (if acc.contains t then acc else t :: acc)
+    | _ => tablesOf ops acc
+
+def isDdl : DStmt → Bool
+  | .dml _ => false
+  | _ => true
+
+def showD (sort : Bool) (op : DOp) (o : Out) : String :=
+  match op, o with
+  | .exec _ st, .stmt (.okN _) => if isDdl st then "ddl" else showOut sort o
+  | .auto st, .stmt (.okN _) => if isDdl st then "ddl" else showOut sort o
+  | _, _ => showOut sort o
+
+def zipShowD (sort : Bool) : List DOp → List Out → List String
+  | op :: ops, o :: os => showD sort op o :: zipShowD sort ops os
+  | _, _ => []
+
+def render (sort : Bool) (ops : List DOp) (tabs : List String) (outs : List Out) : String :=
+  let rest := outs.drop 1
+  let nf := tabs.length
+  let mid := rest.take (rest.length - nf)
+  let fin := rest.drop (rest.length - nf)
+  let finS := (tabs.zip fin).map (fun (t, o) => t ++ "=" ++ showOut sort o)
+  s!"{joinWith " " (zipShowD sort ops mid)} | {joinWith " " finS}"
+
+def runLine (flags : List String) (line : String) : String :=
+  match parseCase line with
+  | none => "bad-op"
+  | some ops =>
+    let tabs := tablesOf ops []
+    -- `reopen` drops every session the case ever names
+    let sess := ops.foldl (fun acc op => match op with
+      | .begin s => if acc.contains s then acc else acc ++ [s]
+      | _ => acc) ([] : List String)
+    let ops := ops.map (fun op => match op with
+      | .reopen _ => DOp.reopen sess
+      | o => o)
+    let all := [DOp.tick] ++ ops ++ tabs.map (fun t => DOp.auto (.dml (.sel t none)))
+    let sort := !flags.contains "nosort"
+    if flags.contains "abs" then render sort ops tabs (Spec.run all).2
+    else
+      let go (fl : List String) : String := render sort ops tabs (run (parseDefects fl) all).2
+      let out := go flags
+      let fired := (flags.filter defectNames.contains).filter (fun f => go (flags.filter (· != f)) != out)
+      if fired.isEmpty then out else out ++ " ## fired=" ++ joinWith "," fired
+
+end AxVerif.Ddl.Drv
+
 namespace AxVerif.Drivers
 
-def ddl (_flags : List String) (_line : String) : String := "unimplemented"
+def ddl (flags : List String) (line : String) : String := AxVerif.Ddl.Drv.runLine flags line
 
 end AxVerif.Drivers
